@@ -391,6 +391,25 @@ func (bc *boundsCtx) defFacts(f *factSet, roots []ssa.Value) {
 			return
 		}
 		seen[v] = true
+		// range of the value's type: unsigned integers are >= 0 and bounded by their width; a
+		// reflect.Kind obtained from reflect is one of the 27 kinds
+		if bt, ok := v.Type().Underlying().(*types.Basic); ok && bt.Info()&types.IsUnsigned != 0 {
+			if _, isC := v.(*ssa.Const); !isC {
+				k := bc.key(v)
+				f.le("", 0, k, 0, 0)
+				switch bt.Kind() {
+				case types.Uint8:
+					f.le(k, 0, "", 0, 255)
+				case types.Uint16:
+					f.le(k, 0, "", 0, 65535)
+				}
+				if call, isCall := v.(*ssa.Call); isCall {
+					if nm := calleeName(&call.Call); nm == "(reflect.Value).Kind" || strings.HasSuffix(nm, "reflect.Type.Kind") {
+						f.le(k, 0, "", 0, 26)
+					}
+				}
+			}
+		}
 		switch x := v.(type) {
 		case *ssa.BinOp:
 			visit(x.X, depth+1)
@@ -410,6 +429,20 @@ func (bc *boundsCtx) defFacts(f *factSet, roots []ssa.Value) {
 			}
 		case *ssa.Convert:
 			visit(x.X, depth+1)
+			// an unsigned value of at most 32 bits converted to a wider or equally wide integer keeps its value
+			if fb, ok := x.X.Type().Underlying().(*types.Basic); ok && fb.Info()&types.IsUnsigned != 0 {
+				if tb, ok := x.Type().Underlying().(*types.Basic); ok && tb.Info()&types.IsInteger != 0 {
+					small := fb.Kind() == types.Uint8 || fb.Kind() == types.Uint16 || fb.Kind() == types.Uint32
+					wide := tb.Kind() == types.Int || tb.Kind() == types.Int64 || tb.Kind() == types.Uint || tb.Kind() == types.Uint64 || (tb.Kind() == types.Int32 && fb.Kind() != types.Uint32) || tb.Kind() == types.Uint32
+					if _, isC := x.X.(*ssa.Const); !isC && (small || isReflectKindValue(x.X)) && wide {
+						a, b := bc.key(x), bc.key(x.X)
+						if a != b {
+							f.le(a, 0, b, 0, 0)
+							f.le(b, 0, a, 0, 0)
+						}
+					}
+				}
+			}
 		case *ssa.Call:
 			n := calleeName(&x.Call)
 			switch n {
@@ -1222,4 +1255,15 @@ func mergeBlocksOf(b *ssa.BasicBlock, vals ...ssa.Value) []*ssa.BasicBlock {
 	}
 	sort.Slice(out, func(i, j int) bool { return out[i].Index > out[j].Index })
 	return out
+}
+
+
+// isReflectKindValue: v is the result of reflect.Value.Kind() / reflect.Type.Kind().
+func isReflectKindValue(v ssa.Value) bool {
+	call, ok := v.(*ssa.Call)
+	if !ok {
+		return false
+	}
+	nm := calleeName(&call.Call)
+	return nm == "(reflect.Value).Kind" || strings.HasSuffix(nm, "reflect.Type.Kind")
 }
